@@ -281,7 +281,7 @@ func (client *client) setError(err error) {
 				if code, ok := err.(*codes.Error); ok {
 					if client.IsConnected() {
 						// send Disconnect
-						client.write(&packets.Disconnect{
+						client.tryWrite(&packets.Disconnect{
 							Version: packets.Version5,
 							Code:    code.Code,
 							Properties: &packets.Properties{
@@ -830,6 +830,16 @@ func (client *client) checkMaxPacketSize(msg *gmqtt.Message) (valid bool) {
 		return false
 	}
 	return true
+}
+
+// tryWrite queues the packet for the write loop unless the outbound channel is full.
+// setError uses it: it runs before client.close is closed, so a blocking write to a
+// client whose write loop is stalled (a peer that stopped reading) would never return.
+func (client *client) tryWrite(packets packets.Packet) {
+	select {
+	case client.out <- packets:
+	default:
+	}
 }
 
 func (client *client) write(packets packets.Packet) {
